@@ -23,9 +23,17 @@ theorem put_okf (lo w : Nat) (v tok : Int) (h0 : -((2 ^ w : Nat) : Int) ≤ v) (
     (hz : tok / ((2 ^ lo : Nat) : Int) % ((2 ^ w : Nat) : Int) = 0) :
     put lo w v tok = .ok (tok + fld v ((2 ^ w : Nat) : Int) * ((2 ^ lo : Nat) : Int)) := put_ok lo w v tok h0 h1 hz
 
-theorem fld_spec {v M x : Int} (h : fld v M = x) (hM : 0 < M) : 0 ≤ x ∧ x < M ∧ x = v % M := by
+/-- the defining equation of an abstracted field, hidden from `omega` until `Def` is unfolded -/
+def Def (x v : Int) : Prop := x = v
+
+theorem fld_spec {v M x : Int} (h : fld v M = x) (hM : 0 < M) : (0 ≤ x ∧ x < M) ∧ Def x (v % M) := by
   subst h
-  exact ⟨Int.emod_nonneg _ (by omega), Int.emod_lt_of_pos _ hM, rfl⟩
+  exact ⟨⟨Int.emod_nonneg _ (by omega), Int.emod_lt_of_pos _ hM⟩, rfl⟩
+
+/-- fields written in increasing bit order: everything so far lies below `lo` -/
+theorem hz_of_lt (lo w : Nat) (tok : Int) (h0 : 0 ≤ tok) (h1 : tok < ((2 ^ lo : Nat) : Int)) :
+    tok / ((2 ^ lo : Nat) : Int) % ((2 ^ w : Nat) : Int) = 0 := by
+  rw [Int.ediv_eq_zero_of_lt h0 h1]; simp
 
 /-- the 32-bit word with the six R-format fields -/
 def asmR (opc rd f3 rs1 rs2 f7 : Nat) : Nat :=
